@@ -184,3 +184,11 @@ Example C15_source_config_example :
   Some (0, [42; 103; 102; 101; 200; 20; 600; 5; 1; -36; 1726362; -36; 0; 1; 600000000000; 2900; 50; 2],
         [SRecorder; SLocation; SWindows; SThrottler; SLocation; SRecorder; SLepton; SDevice; SMotion; SMotion], []).
 Proof. exact ex_reload. Qed.
+
+From TR Require Import proofs.Bridges.
+
+(* ---- the detector is fed by motion/motionprocessor.go as it is now (proofs/TieProc.v, restated in proofs/Bridges.v):
+   on every history the translated processor makes exactly the model's calls - every accepted frame reaches Detect exactly
+   once, inside or outside the recording window, recording or not; a bad frame never does *)
+Theorem C15_source_processor_feeds_detector : BProc.processor_source_tie_stmt.
+Proof. exact BProc.processor_source_tie. Qed.
